@@ -4,12 +4,13 @@ from vflib import gluechecks
 
 def run(tier, only=None):
     q = []
-    hs = [(1, 5), (2, 5)] if tier == "quick" else [(1, 3), (2, 5), (2, 16), (3, 5)]
+    # (the history starts from an arbitrary reachable offset / fitting state, so H counts the calls after that)
+    hs = [(1, 5), (1, 16)] if tier == "quick" else [(1, 3), (1, 5), (1, 16), (2, 5), (2, 16), (3, 5)]
     for h, c in hs:
         q.append({"name": "c15.history.h%d.c%d" % (h, c), "cfile": "glue_c07.c",
                   "defs": ["-DMODE_C15", "-DH=%d" % h, "-DKMAX=2", "-DNPROG=%d" % (h + 1), "-DGBUF=48", "-DLMAX=4", "-DCMAX=64",
                            "-DCFIX=%d" % c, "-DCFIX2=%d" % (3 if c != 3 else 7)], "unwindset": {"nop_padding.1": (c - 1) // 11 + 2},
-                  "timeout": 1500 if tier == "quick" else 5400})
+                  "timeout": 800 if tier == "quick" else 5400})
     return gluechecks.run_queries(
         "C15", tier, q,
         "instance A lives through a history of H arbitrary calls (chunk size, offset, plain/fitting assembly, counting, failing calls, other instances created and destroyed), then receives explicit options, optionally a chunk setting, an explicit offset and a final assemble call; instance B is fresh with the same options, the current chunk setting and offset; return value, final offset and bytes are compared",
